@@ -30,6 +30,10 @@ func suiteSerde(rn *runner, r *rng, tier string) {
 			dedupCase(rn, cr)
 			continue
 		}
+		if i%12 == 9 {
+			sharedStringCase(rn, cr, "p", "q")
+			continue
+		}
 		cfg := defaultCfg(cr)
 		cfg.maxDepth = 1 + cr.intn(4)
 		nd := cr.chance(1, 3)
@@ -182,6 +186,43 @@ func dedupCase(rn *runner, cr *rng) {
 	c.emit("wf q")
 	c.expectLast("wf " + ordRoots(roots))
 	c.tc.class = fmt.Sprintf("dedup-collision/keys=%v/m=%d", asKeys, mode)
+	rn.addPrepared(c.tc)
+}
+
+// sharedStringCase: after a round trip equal strings share one stretch of the message buffer (de-duplication).
+// Replacing one occurrence (same length, shorter, longer) must leave every other occurrence, keys included, alone.
+func sharedStringCase(rn *runner, cr *rng, src, q string) {
+	w := []string{"hello", "k", "shared value", "é中"}[cr.intn(4)]
+	doc := fmt.Sprintf("{\"a\":%q,\"b\":%q,\"c\":[%q,\"other\"],%q:1}", w, w, w, w)
+	c := &opsCase{r: cr, tc: &testCase{note: "serde-shared-string"}, st: newStore()}
+	if out := c.emit(fmt.Sprintf("parse %s 0 %d %s", src, cr.intn(2), hx([]byte(doc)))); !strings.HasPrefix(out, "ok") {
+		return
+	}
+	mode := modes[cr.intn(4)]
+	nextSerde = serdeOpts{m1: mode, m2: mode}
+	if out := c.emit("serde " + q + " " + src); !strings.HasPrefix(out, "ok") {
+		rn.addPrepared(c.tc)
+		return
+	}
+	c.pj = c.st.pjs[q]
+	roots, err := refDecode(c.pj)
+	if err != nil {
+		return
+	}
+	for e := 0; e < 1+cr.intn(3); e++ {
+		repl := []string{strings.ToUpper(w), w[:len(w)/2], w + " and more", "", "X"}[cr.intn(5)]
+		if !c.setStrOn(roots, q, repl) {
+			break
+		}
+		c.emit("owalk " + q)
+		c.expectLast(ordRoots(roots))
+	}
+	c.emit("iter i " + q)
+	c.emit("marshal i")
+	c.emit("serde r " + q)
+	c.emit("owalk r")
+	c.expectLast(ordRoots(roots))
+	c.tc.class = fmt.Sprintf("shared-string/m=%d/w=%d", mode, len(w))
 	rn.addPrepared(c.tc)
 }
 
